@@ -138,7 +138,11 @@ RowId(F, r)   == IF HasCol(F, "id") THEN Num(Cell(F, r, "id")) ELSE SiteRank(F, 
 
 Rows(F) == DOMAIN F.rows
 \* the coordinates of every row, computed once
-RC(F) == [r \in Rows(F) |-> <<RowTime(F, r), RowLead(F, r), RowId(F, r)>>]
+RC(F) == LET noid == ~HasCol(F, "id")
+             \* (TLCEval: identity; it makes TLC tabulate the function now -- a function expression is otherwise re-evaluated at every application)
+             rs == TLCEval([r \in Rows(F) |-> IF noid THEN RowSite(F, r) ELSE <<>>])
+             rank(s) == 1 + Cardinality({q \in {rs[r] : r \in Rows(F)} : SiteLt(q, s)})
+         IN  TLCEval([r \in Rows(F) |-> <<RowTime(F, r), RowLead(F, r), IF noid THEN rank(rs[r]) ELSE Num(Cell(F, r, "id"))>>])
 RECURSIVE SortRSet(_)
 SortRSet(S) == IF S = {} THEN <<>> ELSE LET m == CHOOSE x \in S : \A y \in S : Le(x, y) IN <<m>> \o SortRSet(S \ {m})
 \* location metadata: what the FIRST row mentioning the id says (absent columns or missing values: 0)
@@ -202,23 +206,23 @@ RowOrderInvariant(F) == (OneRowPerCoordinate(F) /\ ConsistentMeta(F)) =>
 (* metadata first seen for every id and stores each data cell under the key (time, lead, id, lat, lon, elev), then a  *)
 (* densification pass over sorted times x sorted lead times x locations.  TLC checks that it computes Parse(F).        *)
 DataCols(F) == {k \in DOMAIN F.header : Class(F.header[k]) \in {"obs", "fcst", "pit", "threshold", "quantile", "member", "other"}}
-RowLoc(F, r) == [id |-> RowId(F, r),
+RowLoc(F, r) == [id |-> 0,       \* (the id is filled in by the loop)
                  lat |-> IF HasCol(F, "lat") THEN (LET v == Cell(F, r, "lat") IN IF IsNaN(v) THEN Zero ELSE v) ELSE Zero,
                  lon |-> IF HasCol(F, "lon") THEN (LET v == Cell(F, r, "lon") IN IF IsNaN(v) THEN Zero ELSE v) ELSE Zero,
                  elev |-> IF HasCol(F, "elev") THEN (LET v == Cell(F, r, "elev") IN IF IsNaN(v) THEN Zero ELSE v) ELSE Zero]
-RECURSIVE RowLoop(_, _, _)
-RowLoop(F, r, st) ==      \* st = [times, leads, locinfo (id -> location), cells (key -> row number that wrote it last)]
+RECURSIVE RowLoop(_, _, _, _)
+RowLoop(F, rc, r, st) ==      \* st = [times, leads, locinfo (id -> location), cells (key -> row number that wrote it last)] ; rc = RC(F)
   IF r > Len(F.rows) THEN st
-  ELSE LET id == RowId(F, r)
+  ELSE LET id == rc[r][3]
            known == id \in DOMAIN st.locinfo
-           loc == IF known THEN st.locinfo[id] ELSE RowLoc(F, r)
+           loc == IF known THEN st.locinfo[id] ELSE [RowLoc(F, r) EXCEPT !.id = id]
            key == <<RowTime(F, r), RowLead(F, r), id, loc.lat, loc.lon, loc.elev>>
-       IN  RowLoop(F, r + 1, [times |-> st.times \cup {RowTime(F, r)}, leads |-> st.leads \cup {RowLead(F, r)},
+       IN  RowLoop(F, rc, r + 1, [times |-> st.times \cup {RowTime(F, r)}, leads |-> st.leads \cup {RowLead(F, r)},
                               locinfo |-> IF known THEN st.locinfo ELSE [j \in DOMAIN st.locinfo \cup {id} |-> IF j = id THEN loc ELSE st.locinfo[j]],
                               cells |-> [q \in DOMAIN st.cells \cup {key} |-> IF q = key THEN r ELSE st.cells[q]]])
 EmptyLoopState == [times |-> {}, leads |-> {}, locinfo |-> <<>>, cells |-> <<>>]
 LoopParse(F) ==
-  LET st == RowLoop(F, 1, EmptyLoopState)
+  LET st == RowLoop(F, RC(F), 1, EmptyLoopState)
       times == SortInts(st.times)  leads == SortRSet(st.leads)  ids == SortInts(DOMAIN st.locinfo)
       coords == {<<t, l, id>> : t \in Elems(times), l \in Elems(leads), id \in Elems(ids)}
       keyOf(c) == LET loc == st.locinfo[c[3]] IN <<c[1], c[2], c[3], loc.lat, loc.lon, loc.elev>>
